@@ -2,6 +2,7 @@ package main
 
 import (
 	"fmt"
+	"sync"
 	"go/ast"
 	"go/token"
 	"go/types"
@@ -29,6 +30,7 @@ type Engine struct {
 	globals  map[*ssa.Global]*globalInfo
 	specUFs  map[string]*specUF
 	loadErrs []string
+	mu       sync.Mutex
 }
 
 type globalInfo struct {
@@ -461,6 +463,8 @@ func (e *Engine) describe(fn *ssa.Function, ins ssa.Instruction) string {
 		}
 	}
 	p := e.prog.Fset.Position(pos)
+	e.mu.Lock()
+	defer e.mu.Unlock()
 	lines, ok := e.srcLines[p.Filename]
 	if !ok {
 		data, err := os.ReadFile(p.Filename)
@@ -717,6 +721,23 @@ func (fx *FuncCtx) builtinModel(st *State, key string, callee *ssa.Function, arg
 			fx.heapSet(st, cn, ccs, "(store "+ch+" "+target+" "+nv+")")
 		}
 		return res, true
+	case "xml.Unmarshal", "(*xml.Decoder).Decode", "(*xml.Decoder).DecodeElement", "json.Unmarshal":
+		// decodes into the object its interface argument points to: that object's fields become unknown
+		call := site.(ssa.CallInstruction).Common()
+		idx := 1
+		if key == "(*xml.Decoder).Decode" || key == "(*xml.Decoder).DecodeElement" {
+			idx = 1 // receiver is args[0]
+		}
+		if idx < len(call.Args) {
+			if !fx.havocPointee(st, call.Args[idx]) {
+				fx.note("%s into a value that is not a pointer to a local struct: heap havocked", key)
+				fx.havocAll(st)
+			}
+		}
+		old := st.Alloc
+		st.Alloc = fx.declare("alloc", "Int")
+		fx.emit(fmt.Sprintf("(assert (>= %s %s))", st.Alloc, old))
+		return fx.freshVal(st, "r_decode", resT), true
 	case "(*regexp.Regexp).MatchString":
 		if args[0].HasRe {
 			return &Val{T: fx.define("rm", "Bool", fx.regexMatch(args[0].Re, args[1].T)), Ty: resT}, true
@@ -908,4 +929,29 @@ func smtCharLit(r rune) string {
 		return "\"" + string(r) + "\""
 	}
 	return fmt.Sprintf("\"\\u{%x}\"", r)
+}
+
+// havocPointee forgets the fields of the struct object an interface value
+// (built from a pointer) or a pointer points to.
+func (fx *FuncCtx) havocPointee(st *State, v ssa.Value) bool {
+	if mi, ok := v.(*ssa.MakeInterface); ok {
+		v = mi.X
+	}
+	pt, ok := v.Type().Underlying().(*types.Pointer)
+	if !ok {
+		// an interface-typed parameter forwarded to the decoder (xmlDecodeBody): unknown pointee
+		return false
+	}
+	pv := fx.val(st, v)
+	if pv.Addr != nil && pv.Addr.Kind == ALocal {
+		fx.havocEscaped(st, pv)
+		return true
+	}
+	ref, ok := fx.ptrTerm(st, pv)
+	if !ok || !isStruct(pt.Elem()) {
+		return false
+	}
+	nv := fx.freshVal(st, "decoded", pt.Elem())
+	fx.storeField(st, ref, pt.Elem(), nil, pt.Elem(), nv.T)
+	return true
 }
